@@ -346,7 +346,7 @@ func xcompare(q DecQ, in Inst, oi ODInst) string {
 		}
 		return "objdump says (bad), decoder says " + in.String()
 	}
-	if in.Bad == "truncated" && oi.Len > len(q.Bytes) {
+	if (in.Bad == "truncated" || in.Bad == "only prefixes") && oi.Len > len(q.Bytes) {
 		return "" // both say: the bytes end in the middle of an instruction
 	}
 	if in.Bad != "" {
